@@ -51,4 +51,34 @@ META = {
         "note": _TB + "; one known finding (finer column after empty replacements) attributed by a precise trigger",
         "technique": "runtime monitoring: metamorphic relation oracle over attribution functions",
     },
+    "C04": {
+        "level": "runtime monitor with an independent ground truth: byte provenance of every output character is computed from the spec by the concat / splice / tokenizer models, and the decoded map() is checked against it clause by clause (segment targets, surviving original characters, raw text unmapped, statement starts exact, tables, columns=false line attribution)",
+        "design_ref": "DESIGN.md section 4, C04",
+        "note": _TB + "; the line break of an empty original line (a token of its own that the documented splitting rule leaves unmapped) is a don't-care for clause (b)",
+        "technique": "runtime monitoring: decoded map() vs byte-provenance model over generated trees",
+    },
+    "C06": {
+        "level": "runtime monitor: ConcatSource - attribution through the composite's map() at every position of child k equals child k's own map() (file, content, line, column, name; first mapped child piece per line for columns=false); ReplaceSource - every surviving inner character and every replacement content character is looked up in map() and compared with the expectation derived from the recorded inner chunk stream and the splice position map (exact column when the recorded content matches entirely or not at all, bounds otherwise)",
+        "design_ref": "DESIGN.md section 4, C06",
+        "note": _TB,
+        "technique": "runtime monitoring: child-vs-composite attribution oracle with splice position map",
+    },
+    "C08": {
+        "level": "runtime monitor: all four (columns, final_source) streaming variants of a SourceMapSource, of a user-defined source going through the public stream_chunks_default with &str and with a multi-piece Rope, and map() of an enclosing ConcatSource are compared per character with the reference lookup in the given map (sourceRoot applied), plus the announced tables",
+        "design_ref": "DESIGN.md section 4, C08",
+        "note": _TB + "; for empty text nothing needs to be announced (DESIGN 3.6.1)",
+        "technique": "runtime monitoring: recorded streams vs reference map lookup",
+    },
+    "C09": {
+        "level": "runtime monitor: map() of a SourceMapSource with inner map is decoded independently and compared per character with a reference composition over the decoded outer and inner maps (inner lookup, fallback to the inner source or removal, pass-through, contents, names)",
+        "design_ref": "DESIGN.md section 4, C09",
+        "note": _TB,
+        "technique": "runtime monitoring: reference map composition oracle",
+    },
+    "C16": {
+        "level": "runtime monitor with a flat String as executable model: exhaustive small scope (every rope over <=3/<=4 pieces from 7 pieces incl. empty, line break and 1-4 byte characters, built by from_iter / new+add / from+add / append; every byte index, every slice range, every differently chunked prefix / equal / unequal partner, lines and slices re-observed) followed by random deeper programs; an in-domain panic is a violation",
+        "design_ref": "DESIGN.md section 4, C16",
+        "note": _TB,
+        "technique": "runtime monitoring: model-based differential checking, exhaustive small scope + random programs",
+    },
 }
